@@ -89,6 +89,7 @@ type Ctx struct {
 	evName    map[int64]string
 	boolSum   map[string][]Cred
 	boolSumOK map[string]bool
+	edgeBusy  map[[2]*ssa.BasicBlock]bool
 }
 
 // NewCtx prepares shared tables.
@@ -296,7 +297,7 @@ type Fire struct {
 	Before  bool
 	Event   int64
 	Const   bool
-	Events  []int64 // all events this site fires (a loop over a literal list), len 1 for a constant
+	Events  []int64   // all events this site fires (a loop over a literal list), len 1 for a constant
 	Handled ssa.Value // result #0
 	Err     ssa.Value // result #1
 	Req     ssa.Value // request argument
